@@ -412,12 +412,9 @@ class Harness:
         elif how == "pickle":
             try:
                 self.handles.append((pi, pickle.loads(pickle.dumps(job))))
-            except RecursionError:
-                # known finding F22: a handle whose state point object is materialised cannot be unpickled
-                if job._statepoint_requires_init:
-                    raise
-                KNOWN_SEEN.add("pickle:materialised-statepoint-handle")
-                return "handle pickle -> RecursionError (known finding F22)"
+            except RecursionError as e:
+                # F22 (fixed by 0ab70da): a handle with a shallow copy could not be unpickled
+                return f"FAIL:pickle round trip of a job handle raised RecursionError ({str(e)[:80]})"
         elif how == "reopen":
             hp = self.hproj(job)
             if job.id in self.model[hp]:
@@ -530,13 +527,6 @@ def probe_known():
         j3.init()
         if json.loads(json.dumps(k3.doc())) != {}:
             KNOWN_SEEN.add("doc:other-handle-survives-remove")
-        import pickle
-        j.sp
-        sibling = copy.copy(j)      # F22 needs a shallow copy: the shared state point object then lists both handles
-        try:
-            pickle.loads(pickle.dumps(j))
-        except RecursionError:
-            KNOWN_SEEN.add("pickle:materialised-statepoint-handle")
     finally:
         shutil.rmtree(d, ignore_errors=True)
 
